@@ -90,6 +90,14 @@ def oracle_connect(case):
     if msg:
         return 'result not well formed: ' + msg
     prefix = name + '@' if (name != '' and ap) else ''
+    # the documented composition identifies EVERY connector pair (oc_i, tc_i).  A gate of `other` can be
+    # identified with one base gate only (left: an input of other is fed by one gate; right: it is written
+    # over the one base input it replaces), so a call that returns although oc repeats a gate has dropped
+    # a pair silently
+    if len(oc) == len(tc) and len(set(oc)) != len(oc) and len(set(zip(oc, tc))) != len(set(oc)):
+        dropped = [(o, t) for o, t in zip(oc, tc) if dict(zip(oc, tc))[o] != t]
+        return (f'connector pairs {dropped} were not identified: the call returned although the gate of the '
+                f'attached circuit is paired with several base gates')
     mapping = dict(zip(oc, tc))
     ren = lambda l: mapping[l] if l in mapping else prefix + l
     bg, og = gates_of(base), gates_of(other)
@@ -218,6 +226,18 @@ def oracle_wrapper(case):
 
 
 # ------------------------------------------------------------------ C13
+def spoil_gadgets(n):
+    """what an earlier caller in the same process may have done: generate the gadgets build_miter uses and edit
+    the returned circuits in place.  A library that hands out a NEW circuit on every call is unaffected"""
+    try:
+        from cirbo.synthesis.generation.generation import generate_pairwise_xor
+        g = generate_pairwise_xor(n)
+        mutate_everything(g)
+        g.set_outputs(list(g._gates)[:1])
+    except Exception:  # noqa: BLE001
+        pass
+
+
 def oracle_miter(case):
     l, r = case['left'], case['right']
     if not (evaluable(l) and evaluable(r)):
@@ -229,6 +249,7 @@ def oracle_miter(case):
     from cirbo.sat.exceptions import MiterDifferentShapesError
     bl, br = ct.dump_circuit(cl), ct.dump_circuit(cr)
     same_shape = len(l['inputs']) == len(r['inputs']) and len(l['outputs']) == len(r['outputs'])
+    spoil_gadgets(len(l['outputs']))
     try:
         m = build_miter(cl, cr)
     except MiterDifferentShapesError:
